@@ -45,6 +45,7 @@
 package interp // import "golang.org/x/tools/go/ssa/interp"
 
 import (
+	"time"
 	"runtime/debug"
 	"fmt"
 	"go/token"
@@ -95,6 +96,7 @@ type interpreter struct {
 	ex        *explorer
 	steps     int64
 	maxSteps  int64
+	deadline  time.Time // per-path wall limit (zero: none)
 	funcs     map[string]bool
 	models    map[string]int
 	inHarness bool
@@ -624,8 +626,13 @@ func runFrame(fr *frame) {
 				}
 			}
 			fr.i.steps++
-			if fr.i.steps&0xfffff == 0 && heapTooLarge() {
-				panic(engineAbort{kind: abortTruncated, msg: "engine memory guard (heap above 20 GiB)"})
+			if fr.i.steps&0xfffff == 0 {
+				if heapTooLarge() {
+					panic(engineAbort{kind: abortTruncated, msg: "engine memory guard (heap above 20 GiB)"})
+				}
+				if !fr.i.deadline.IsZero() && time.Now().After(fr.i.deadline) {
+					panic(engineAbort{kind: abortTruncated, msg: "path wall limit"})
+				}
 			}
 			if fr.i.steps > fr.i.maxSteps && fr.i.maxSteps > 0 {
 				panic(engineAbort{kind: abortTruncated, msg: "step bound"})
